@@ -30,9 +30,14 @@ import nasim.envs.environment as m_env
 
 ID = "C20"
 TECHNIQUE = "symbolic execution of the real get_minimal_hops_to_goal / get_score_upper_bound by z3 proxy values over all topologies of the bounded size (adjacency bits as solver variables); minimum connecting set as oracle; replay on the real function and by an episode on the real environment"
-needs_reach = False
+needs_reach = True
 EXTRA_STUBS = dyn.EXTRA_STUBS
-REQUIRED_WITNESSES = ['hops', 'bound', 'branching_topology']
+REQUIRED_WITNESSES = ['hops', 'bound', 'branching_topology', 'premise']
+
+
+def prefer(r):
+    from . import common
+    return common.prefer(r) if r.q.get('premise') else []
 STUBS = ["np -> vf.npmodel array model (int16 cells hold real numpy.int16 scalars)",
          "int/float/bool/isinstance/min/max/type -> virtual builtins"]
 ASSUMPTIONS = ["topology symmetric and reflexive (documented); every sensitive subnet reachable from the internet node",
@@ -50,11 +55,20 @@ def queries(tier, seed=0):
             if n == 6 and k > 3:
                 continue
             for S in itertools.combinations(subs, k):
-                qs.append(dict(kind='hops', n=n, sens=[[s, 0] for s in S]))
-        qs.append(dict(kind='hops', n=n, sens=[[n - 1, 0], [n - 1, 1], [1, 0]]))
+                qs.append(dict(kind='hops', n=n, sens=[[s, 0] for s in S], no_reach=True))
+        qs.append(dict(kind='hops', n=n, sens=[[n - 1, 0], [n - 1, 1], [1, 0]], no_reach=True))
     for sz in ([1, 1], [1, 1, 1], [2, 1, 1]):
-        qs.append(dict(kind='bound', shape=Shape(sz, 1, 1, 1).to_json(), sens=[[len(sz), 0]]))
-        qs.append(dict(kind='bound', shape=Shape(sz, 1, 1, 1).to_json(), sens=[[1, 0], [len(sz), 0]]))
+        qs.append(dict(kind='bound', shape=Shape(sz, 1, 1, 1).to_json(), sens=[[len(sz), 0]], no_reach=True))
+        qs.append(dict(kind='bound', shape=Shape(sz, 1, 1, 1).to_json(), sens=[[1, 0], [len(sz), 0]], no_reach=True))
+    # the premises of the derivation of the first sentence (module docstring), on a small shape:
+    # every value is paid at most once (value only on the step that first obtains ROOT / first
+    # discovers, status monotone) and every step pays its cost
+    for q in dyn.base_queries('quick', level='gen', kinds=('exploit', 'privesc', 'subnet_scan')):
+        if q['shape']['sizes'] == [2, 1] and q.get('os') is None:
+            d = dict(q)
+            d['kind0'] = d['kind']
+            d['premise'] = True
+            qs.append(d)
     return qs
 
 
@@ -101,6 +115,8 @@ def min_connect(adj, n, sens_subnets):
 
 
 def run(src, q):
+    if q.get('premise'):
+        return dyn.run(src, q)
     r = dyn.Rec()
     r.q = q
     if q['kind'] == 'bound':
@@ -135,6 +151,13 @@ def run(src, q):
 
 def obligations(r):
     q = r.q
+    if q.get('premise'):
+        from . import c05
+        from ..scen import STATUS
+        obl = [('premise_' + n, f) for n, f in c05.obligations(r)]
+        mono = [r.post[a][k] >= r.st[a][k] for a in r.w.addrs for k in STATUS]
+        obl.append(('premise_status_monotone', z3.And(mono)))
+        return obl
     if q['kind'] == 'bound':
         w = r.w
         tot = z3.RealVal(0)
@@ -152,6 +175,8 @@ def obligations(r):
 
 
 def witnesses(r):
+    if r.q.get('premise'):
+        return ['premise']
     if r.q['kind'] == 'bound':
         return ['bound']
     out = ['hops']
@@ -163,6 +188,9 @@ def witnesses(r):
 
 
 def describe(r):
+    if r.q.get('premise'):
+        from . import common
+        return common.describe(r)
     if r.q['kind'] == 'bound':
         return dict(bound=str(z3.simplify(sx.znum(r.bound))), hops=str(r.hops))
     d = dict(n=r.n, sensitive=[list(a) for a in r.sens], adjacency=[[int(x) for x in row] for row in r.adj],
